@@ -167,12 +167,35 @@ def count_theorems(prop_file):
     return re.findall(r"^(?:Theorem|Lemma|Corollary)\s+(\S+)", src, re.M)
 
 
-def grep_forbidden():
+def coq_dep_closure(files):
+    """transitive closure of `From ABT Require ... X.Y` dependencies (paths relative to coq/)"""
+    seen, todo = set(), list(files)
+    while todo:
+        f = todo.pop()
+        if f in seen or not os.path.exists(os.path.join(COQ, f)):
+            continue
+        seen.add(f)
+        txt = strip_coq_comments(open(os.path.join(COQ, f)).read())
+        for m in re.finditer(r"(?:From\s+ABT\s+)?Require\s+(.*?)\.(?=\s|$)", txt, re.S):
+            frm = m.group(0).startswith("From")
+            for mod in m.group(1).split():
+                if mod in ("Import", "Export"):
+                    continue
+                if frm:
+                    todo.append(mod.replace(".", "/") + ".v")
+                elif mod.startswith("ABT."):
+                    todo.append(mod[4:].replace(".", "/") + ".v")
+    return sorted(seen)
+
+
+def grep_forbidden(only=None):
     hits = []
     for root, ds, fs in os.walk(COQ):
         for f in fs:
             if f.endswith(".v"):
                 p = os.path.join(root, f)
+                if only is not None and os.path.relpath(p, COQ) not in only:
+                    continue
                 txt = open(p).read()
                 # strip comments (non-nested approximation is not enough: do nested)
                 txt = strip_coq_comments(txt)
@@ -352,7 +375,9 @@ def proof_stage(prop_file, targets):
             res["log"] = raw
     else:
         res["log"] = mlog
-    fb = grep_forbidden()
+    closure = coq_dep_closure([prop_file] + [t[:-1] for t in targets if t.endswith(".vo")])
+    res["files"] = closure
+    fb = grep_forbidden(only=set(closure))
     res["forbidden"] = fb
     if fb:
         res["ok"] = False
